@@ -588,6 +588,59 @@ def install(w):
         return None
     w.getattr_dyn = getattr_dyn
 
+    # ------------------------------------------------------------------ dict-like dynamic values
+    import collections.abc as _abc
+    from pyvc.refs import RefS, VOMap, OMAP_LEN
+    AS_OMAP = z3.Function("as_omap", sym.ValS, RefS)
+
+    def dictlike(t):
+        return z3.Or(sym.tag(t) == T["dict"],
+                     z3.And(sym.tag(t) == T["other"], ISINST(t, sym.ATOMS.code(_abc.Mapping))))
+    w.dictlike = dictlike
+
+    def dyn_omap(it, v):
+        m = VOMap(AS_OMAP(v.t), "dyn")
+        it.sadd(z3.And(OMAP_LEN(m.t) >= 0, OMAP_LEN(m.t) == sym.v_len(v.t)))
+        return m
+    w.dyn_omap = dyn_omap
+
+    prev_getattr3 = w.getattr_ext
+
+    def getattr_ext3(it, v, attr, node):
+        if isinstance(v, VDyn) and attr in ("items", "get", "keys", "values"):
+            use("a dict (or Mapping) value is read through the ordered-map model: items/get/keys/values")
+            if not it.st.spec:
+                it.guard(dictlike(v.t), AttributeError, node, "SAFE-Attr")
+            m = dyn_omap(it, v)
+            return VFunc(None, recv=m, builtin=f"omap.{attr}", name=attr)
+        return prev_getattr3(it, v, attr, node)
+    w.getattr_ext = getattr_ext3
+
+    prev_isinstance2 = w.isinstance_ext
+
+    def isinstance_ext2(it, v, k, node):
+        if isinstance(v, VDyn) and k is _abc.Mapping:
+            return dictlike(v.t)
+        return prev_isinstance2(it, v, k, node)
+    w.isinstance_ext = isinstance_ext2
+
+    prev_index2 = w.index_ext
+
+    def index_ext2(it, v, idx, node):
+        if isinstance(v, VDyn) and isinstance(idx, VStr):
+            it.guard(dictlike(v.t), TypeError, node, "SAFE-Type")
+            return prev_index2(it, dyn_omap(it, v), idx, node)
+        return prev_index2(it, v, idx, node)
+    w.index_ext = index_ext2
+
+    prev_contains2 = w.contains_ext
+
+    def contains_ext2(it, container, item, node):
+        if isinstance(container, VDyn) and isinstance(item, VStr):
+            return z3.And(dictlike(container.t), prev_contains2(it, dyn_omap(it, container), item, node))
+        return prev_contains2(it, container, item, node)
+    w.contains_ext = contains_ext2
+
     # ------------------------------------------------------------------ calling a dynamic value
     prev_call = w.call_ext
 
